@@ -140,4 +140,10 @@ func init() {
 		"			if err := op.apply(ctx, txn); err != nil {\n				return err\n			}\n			if err := op.Digest().apply(ctx, txn); err != nil {", "			if len(op.Key) == 0 {\n				continue\n			}\n			if err := op.apply(ctx, txn); err != nil {\n				return err\n			}\n			if err := op.Digest().apply(ctx, txn); err != nil {", "C06.R1.complete")
 	mut("C06", "a deleted key's lease falls back to the host", "aspen/internal/kv/lease.go",
 		"	return digest.Leaseholder, nil\n}", "	if digest.Variant == change.VariantDelete {\n		return la.Cluster.HostKey(), nil\n	}\n	return digest.Leaseholder, nil\n}", "C06.R6.lease")
+
+	// ---------------- C06.R7 / C13.R4
+	mut("C06", "ties go to the lower leaseholder", "aspen/internal/kv/filter_persist.go",
+		"		return op.Leaseholder > dig.Leaseholder, nil", "		return op.Leaseholder < dig.Leaseholder, nil", "C06.R7.rule")
+	mut("C13", "an equal version is accepted again", "aspen/internal/kv/filter_persist.go",
+		"		return op.Leaseholder > dig.Leaseholder, nil", "		return op.Leaseholder >= dig.Leaseholder, nil", "C13.R4.rule")
 }
